@@ -452,6 +452,74 @@ def inline_new_callees(fn, fns, is_new, max_inlines=24):
     return Fn(fn.crate, d), done
 
 
+def fn_sig(d):
+    """A fingerprint of a function body that survives its own renaming (and that of its siblings): arity, result type, the
+    callees outside its own type, the fields it touches, its integer constants."""
+    path = d.get("path", "")
+    parent = path.rsplit("::", 1)[0]
+    mir = d.get("mir") or {}
+    callees, fields, consts = [], [], []
+
+    def walk_json(x):
+        if isinstance(x, dict):
+            if "f" in x and "of" in x and isinstance(x["f"], str):
+                fields.append(x["f"])
+            if x.get("k") == "call" and isinstance(x.get("func"), dict):
+                cp = x["func"].get("path", "")
+                if not cp.startswith(parent + "::"):
+                    callees.append(cp)
+            if "const" in x and isinstance(x["const"], dict) and isinstance(x["const"].get("val"), int):
+                consts.append(x["const"]["val"])
+            for v in x.values():
+                walk_json(v)
+        elif isinstance(x, list):
+            for v in x:
+                walk_json(v)
+    walk_json(mir.get("blocks", []))
+    return [mir.get("argc"), d.get("output"), sorted(callees), sorted(fields), sorted(consts)]
+
+
+def _renamed_items(texts, already):
+    """Private functions that were renamed in place: a function missing from the reference list and a new one under the same
+    parent (type or module) with the same fingerprint (fn_sig), unique both ways. {new path: old path}."""
+    d0 = os.path.dirname(os.path.abspath(__file__))
+    bp, sp = os.path.join(d0, "baseline_fns.json"), os.path.join(d0, "baseline_sigs.json")
+    if os.environ.get("VERIF_NO_INLINE") or not os.path.exists(bp) or not os.path.exists(sp):
+        return {}
+    with open(bp) as fh:
+        base = set(json.load(fh))
+    with open(sp) as fh:
+        sigs = json.load(fh)
+    cur = {}
+    for t in texts.values():
+        for d in json.loads(t)["fns"]:
+            p = d.get("path", "")
+            if "{closure" not in p:
+                cur[p] = d
+    crates_here = {p.split("::")[0].lstrip("<") for p in cur}
+    missing = [p for p in base - set(cur) if p.split("::")[0].lstrip("<") in crates_here and not p.startswith("<") and p in sigs]
+    new = [p for p in set(cur) - base if not p.startswith("<") and p not in already and not any(p.startswith(a + "::") for a in already)]
+    out = {}
+    by_parent = {}
+    for p in missing:
+        by_parent.setdefault(p.rsplit("::", 1)[0], {"m": [], "n": []})["m"].append(p)
+    for p in new:
+        by_parent.setdefault(p.rsplit("::", 1)[0], {"m": [], "n": []})["n"].append(p)
+    for par, g in by_parent.items():
+        if not g["m"] or not g["n"]:
+            continue
+        ms = {}
+        for p in g["m"]:
+            ms.setdefault(json.dumps(sigs[p]), []).append(p)
+        ns = {}
+        for p in g["n"]:
+            ns.setdefault(json.dumps(fn_sig(cur[p])), []).append(p)
+        for k, ps in ns.items():
+            if len(ps) == 1 and len(ms.get(k, [])) == 1:
+                out[ps[0]] = ms[k][0]
+    return out
+
+
 def _moved_items(texts):
     """Types / functions that were moved to another module of their crate since the reference tree: {new path prefix: old
     path prefix}. A function that is not on the reference list while a listed function of the same crate with the same
@@ -515,6 +583,11 @@ class Facts:
                 with open(os.path.join(directory, name)) as fh:
                     texts[name] = fh.read()
         self.moved = _moved_items(texts) if inline is not None else {}
+        self.renamed = _renamed_items(texts, self.moved) if inline is not None else {}
+        # (a renamed function is addressed by its reference name: the quoted path, so that longer names are not clipped)
+        for new_, old_ in self.renamed.items():
+            self.moved['"%s"' % new_] = '"%s"' % old_
+            self.moved['%s::{closure' % new_] = '%s::{closure' % old_
         for name in sorted(texts):
             t = texts[name]
             for new_, old_ in sorted(self.moved.items(), key=lambda kv: -len(kv[0])):
